@@ -10,7 +10,9 @@ from vlib.ref import abnf, typecheck
 NAMES = ["a", "b", "c", "d", "e", "_x", "A1", "\u00e9", "\u4e2d\u6587", "\U0001F600", "a\U00010000", "\ud7ff", "\ue000",
          "\U0010FFFF", "x_9", "\x80"]
 STRINGS = ["", "a", "b", "ab", "A", "\u00e9", "\U0001F600", "'", '"', "\\", "\n", "\t", "\x00", "\x1f", "\x7f", "/",
-           "a'b\"c", "\u2028", "\uffff", "\b\f\r", "\U0010FFFF"]
+           "a'b\"c", "\u2028", "\uffff", "\b\f\r", "\U0010FFFF",
+           # strings that look like (bad) regular expressions: any string is a well-typed argument of match()/search()
+           "[z-a]", "a{2,1}", "(", "[", "a**", "(?i)a", "\\p{Xx}", "a|", "[^]", "\\", ".*", "[a-z]+"]
 
 
 def verdict(text, registry=None):
